@@ -4,7 +4,6 @@
 // module), which is what lets the dispatch proof tell the modules apart.  What each operator
 // computes is proved in the operator's own unit (V) or harness (K).
 
-pub uninterp spec fn op_add(lhs: Variable, rhs: Variable) -> Variable;
 pub mod add { use super::*;
     #[verifier::external_body]
     pub fn exec(lhs: Variable, rhs: Variable) -> (r: Variable) ensures r == op_add(lhs, rhs) { unimplemented!() }
@@ -13,7 +12,6 @@ pub mod add { use super::*;
     pub fn create_from_instructions(lhs: Instruction, rhs: Instruction) -> (r: Instruction) ensures r == folded(lhs, rhs) { unimplemented!() }
 }
 
-pub uninterp spec fn op_subtract(lhs: Variable, rhs: Variable) -> Variable;
 pub mod subtract { use super::*;
     #[verifier::external_body]
     pub fn exec(lhs: Variable, rhs: Variable) -> (r: Variable) ensures r == op_subtract(lhs, rhs) { unimplemented!() }
@@ -22,7 +20,6 @@ pub mod subtract { use super::*;
     pub fn create_from_instructions(lhs: Instruction, rhs: Instruction) -> (r: Instruction) ensures r == folded(lhs, rhs) { unimplemented!() }
 }
 
-pub uninterp spec fn op_multiply(lhs: Variable, rhs: Variable) -> Variable;
 pub mod multiply { use super::*;
     #[verifier::external_body]
     pub fn exec(lhs: Variable, rhs: Variable) -> (r: Variable) ensures r == op_multiply(lhs, rhs) { unimplemented!() }
@@ -31,7 +28,6 @@ pub mod multiply { use super::*;
     pub fn create_from_instructions(lhs: Instruction, rhs: Instruction) -> (r: Instruction) ensures r == folded(lhs, rhs) { unimplemented!() }
 }
 
-pub uninterp spec fn op_equal(lhs: Variable, rhs: Variable) -> Variable;
 pub mod equal { use super::*;
     #[verifier::external_body]
     pub fn exec(lhs: Variable, rhs: Variable) -> (r: Variable) ensures r == op_equal(lhs, rhs) { unimplemented!() }
@@ -40,7 +36,6 @@ pub mod equal { use super::*;
     pub fn create_from_instructions(lhs: Instruction, rhs: Instruction) -> (r: Instruction) ensures r == folded(lhs, rhs) { unimplemented!() }
 }
 
-pub uninterp spec fn op_not_equal(lhs: Variable, rhs: Variable) -> Variable;
 pub mod not_equal { use super::*;
     #[verifier::external_body]
     pub fn exec(lhs: Variable, rhs: Variable) -> (r: Variable) ensures r == op_not_equal(lhs, rhs) { unimplemented!() }
@@ -49,7 +44,6 @@ pub mod not_equal { use super::*;
     pub fn create_from_instructions(lhs: Instruction, rhs: Instruction) -> (r: Instruction) ensures r == folded(lhs, rhs) { unimplemented!() }
 }
 
-pub uninterp spec fn op_greater(lhs: Variable, rhs: Variable) -> Variable;
 pub mod greater { use super::*;
     #[verifier::external_body]
     pub fn exec(lhs: Variable, rhs: Variable) -> (r: Variable) ensures r == op_greater(lhs, rhs) { unimplemented!() }
@@ -58,7 +52,6 @@ pub mod greater { use super::*;
     pub fn create_from_instructions(lhs: Instruction, rhs: Instruction) -> (r: Instruction) ensures r == folded(lhs, rhs) { unimplemented!() }
 }
 
-pub uninterp spec fn op_greater_equal(lhs: Variable, rhs: Variable) -> Variable;
 pub mod greater_equal { use super::*;
     #[verifier::external_body]
     pub fn exec(lhs: Variable, rhs: Variable) -> (r: Variable) ensures r == op_greater_equal(lhs, rhs) { unimplemented!() }
@@ -67,7 +60,6 @@ pub mod greater_equal { use super::*;
     pub fn create_from_instructions(lhs: Instruction, rhs: Instruction) -> (r: Instruction) ensures r == folded(lhs, rhs) { unimplemented!() }
 }
 
-pub uninterp spec fn op_lower(lhs: Variable, rhs: Variable) -> Variable;
 pub mod lower { use super::*;
     #[verifier::external_body]
     pub fn exec(lhs: Variable, rhs: Variable) -> (r: Variable) ensures r == op_lower(lhs, rhs) { unimplemented!() }
@@ -76,7 +68,6 @@ pub mod lower { use super::*;
     pub fn create_from_instructions(lhs: Instruction, rhs: Instruction) -> (r: Instruction) ensures r == folded(lhs, rhs) { unimplemented!() }
 }
 
-pub uninterp spec fn op_lower_equal(lhs: Variable, rhs: Variable) -> Variable;
 pub mod lower_equal { use super::*;
     #[verifier::external_body]
     pub fn exec(lhs: Variable, rhs: Variable) -> (r: Variable) ensures r == op_lower_equal(lhs, rhs) { unimplemented!() }
@@ -85,7 +76,6 @@ pub mod lower_equal { use super::*;
     pub fn create_from_instructions(lhs: Instruction, rhs: Instruction) -> (r: Instruction) ensures r == folded(lhs, rhs) { unimplemented!() }
 }
 
-pub uninterp spec fn op_bitwise_and(lhs: Variable, rhs: Variable) -> Variable;
 pub mod bitwise_and { use super::*;
     #[verifier::external_body]
     pub fn exec(lhs: Variable, rhs: Variable) -> (r: Variable) ensures r == op_bitwise_and(lhs, rhs) { unimplemented!() }
@@ -94,7 +84,6 @@ pub mod bitwise_and { use super::*;
     pub fn create_from_instructions(lhs: Instruction, rhs: Instruction) -> (r: Instruction) ensures r == folded(lhs, rhs) { unimplemented!() }
 }
 
-pub uninterp spec fn op_bitwise_or(lhs: Variable, rhs: Variable) -> Variable;
 pub mod bitwise_or { use super::*;
     #[verifier::external_body]
     pub fn exec(lhs: Variable, rhs: Variable) -> (r: Variable) ensures r == op_bitwise_or(lhs, rhs) { unimplemented!() }
@@ -103,7 +92,6 @@ pub mod bitwise_or { use super::*;
     pub fn create_from_instructions(lhs: Instruction, rhs: Instruction) -> (r: Instruction) ensures r == folded(lhs, rhs) { unimplemented!() }
 }
 
-pub uninterp spec fn op_xor(lhs: Variable, rhs: Variable) -> Variable;
 pub mod xor { use super::*;
     #[verifier::external_body]
     pub fn exec(lhs: Variable, rhs: Variable) -> (r: Variable) ensures r == op_xor(lhs, rhs) { unimplemented!() }
@@ -112,7 +100,6 @@ pub mod xor { use super::*;
     pub fn create_from_instructions(lhs: Instruction, rhs: Instruction) -> (r: Instruction) ensures r == folded(lhs, rhs) { unimplemented!() }
 }
 
-pub uninterp spec fn op_divide(lhs: Variable, rhs: Variable) -> Result<Variable, ExecError>;
 pub mod divide { use super::*;
     #[verifier::external_body]
     pub fn exec(lhs: Variable, rhs: Variable) -> (r: Result<Variable, ExecError>) ensures r == op_divide(lhs, rhs) { unimplemented!() }
@@ -121,7 +108,6 @@ pub mod divide { use super::*;
     pub fn create_from_instructions(lhs: Instruction, rhs: Instruction) -> (r: Result<Instruction, ExecError>) ensures r == folded(lhs, rhs) { unimplemented!() }
 }
 
-pub uninterp spec fn op_modulo(lhs: Variable, rhs: Variable) -> Result<Variable, ExecError>;
 pub mod modulo { use super::*;
     #[verifier::external_body]
     pub fn exec(lhs: Variable, rhs: Variable) -> (r: Result<Variable, ExecError>) ensures r == op_modulo(lhs, rhs) { unimplemented!() }
@@ -130,13 +116,11 @@ pub mod modulo { use super::*;
     pub fn create_from_instructions(lhs: Instruction, rhs: Instruction) -> (r: Result<Instruction, ExecError>) ensures r == folded(lhs, rhs) { unimplemented!() }
 }
 
-pub uninterp spec fn op_pow(lhs: Variable, rhs: Variable) -> Result<Variable, ExecError>;
 pub mod pow { use super::*;
     #[verifier::external_body]
     pub fn exec(lhs: Variable, rhs: Variable) -> (r: Result<Variable, ExecError>) ensures r == op_pow(lhs, rhs) { unimplemented!() }
 }
 
-pub uninterp spec fn op_lshift(lhs: Variable, rhs: Variable) -> Result<Variable, ExecError>;
 pub mod lshift { use super::*;
     #[verifier::external_body]
     pub fn exec(lhs: Variable, rhs: Variable) -> (r: Result<Variable, ExecError>) ensures r == op_lshift(lhs, rhs) { unimplemented!() }
@@ -145,7 +129,6 @@ pub mod lshift { use super::*;
     pub fn create_from_instructions(lhs: Instruction, rhs: Instruction) -> (r: Result<Instruction, ExecError>) ensures r == folded(lhs, rhs) { unimplemented!() }
 }
 
-pub uninterp spec fn op_rshift(lhs: Variable, rhs: Variable) -> Result<Variable, ExecError>;
 pub mod rshift { use super::*;
     #[verifier::external_body]
     pub fn exec(lhs: Variable, rhs: Variable) -> (r: Result<Variable, ExecError>) ensures r == op_rshift(lhs, rhs) { unimplemented!() }
@@ -154,19 +137,16 @@ pub mod rshift { use super::*;
     pub fn create_from_instructions(lhs: Instruction, rhs: Instruction) -> (r: Result<Instruction, ExecError>) ensures r == folded(lhs, rhs) { unimplemented!() }
 }
 
-pub uninterp spec fn op_filter(lhs: Variable, rhs: Variable) -> Result<Variable, ExecError>;
 pub mod filter { use super::*;
     #[verifier::external_body]
     pub fn exec(lhs: Variable, rhs: Variable) -> (r: Result<Variable, ExecError>) ensures r == op_filter(lhs, rhs) { unimplemented!() }
 }
 
-pub uninterp spec fn op_map(lhs: Variable, rhs: Variable) -> Result<Variable, ExecError>;
 pub mod map { use super::*;
     #[verifier::external_body]
     pub fn exec(lhs: Variable, rhs: Variable) -> (r: Result<Variable, ExecError>) ensures r == op_map(lhs, rhs) { unimplemented!() }
 }
 
-pub uninterp spec fn op_at(lhs: Variable, rhs: Variable) -> Result<Variable, ExecError>;
 pub mod at { use super::*;
     #[verifier::external_body]
     pub fn exec(lhs: Variable, rhs: Variable) -> (r: Result<Variable, ExecError>) ensures r == op_at(lhs, rhs) { unimplemented!() }
@@ -175,13 +155,11 @@ pub mod at { use super::*;
     pub fn create_from_instructions(lhs: Instruction, rhs: Instruction) -> (r: Result<Instruction, ExecError>) ensures r == folded(lhs, rhs) { unimplemented!() }
 }
 
-pub uninterp spec fn op_call(lhs: Variable, rhs: Variable) -> Result<Variable, ExecError>;
 pub mod call { use super::*;
     #[verifier::external_body]
     pub fn exec(lhs: Variable, rhs: Variable) -> (r: Result<Variable, ExecError>) ensures r == op_call(lhs, rhs) { unimplemented!() }
 }
 
-pub uninterp spec fn op_partition(lhs: Variable, rhs: Variable) -> Result<Variable, ExecError>;
 pub mod partition { use super::*;
     #[verifier::external_body]
     pub fn exec(lhs: Variable, rhs: Variable) -> (r: Result<Variable, ExecError>) ensures r == op_partition(lhs, rhs) { unimplemented!() }
